@@ -12,9 +12,9 @@ def queries():
     qs = []
     for lcp in (0, 1):
         qs.append(mk(0, 3, 2, lcp, 0, 0, True)); qs.append(mk(1, 3, 2, lcp, 0, 0, True)); qs.append(mk(0, 4, 2, lcp, 0, 0, lcp == 0))
-        qs.append(mk(2, 3, 2, lcp, 2, 0, True))
+        qs.append(mk(2, 2, 1, lcp, 2, 0, True)); qs.append(mk(2, 2, 2, lcp, 2, 0, False)); qs.append(mk(2, 3, 2, lcp, 2, 0, False))   # measured: multikey quicksort on 3 strings: > 30 GB (3-way recursion)
         for algo in (3, 4, 5, 6, 7):
-            qs.append(mk(algo, 3, 1, lcp, 2, 0, algo in (3, 6) and lcp == 0))
+            qs.append(mk(algo, 2, 1, lcp, 2, 0, algo in (3, 6) and lcp == 0)); qs.append(mk(algo, 3, 1, lcp, 2, 0, False))
             qs.append(mk(algo, 3, 2, lcp, 2, 0, False)); qs.append(mk(algo, 4, 2, lcp, 2, 0, False))
         for memory in (1, 64, 4096):
             qs.append(mk(5, 3, 1, lcp, 2, memory, False))
@@ -22,6 +22,7 @@ def queries():
     qs.append(Query('std_n3_l2', SRC, 'h_strsort_std', 'sort_strings on 3 std::string objects of length 0..2 (NUL-free bytes): sorted and a permutation of the contents', defs=['N=3', 'MAXLEN=2'], ll2c=['--alloc-cap', '4096'], timeout=1800, unwind=4, max_unwind=300))
     return qs
 
+JOBS = {'quick': 4, 'thorough': 2}
 ASSUMPTIONS = ['queries marked thr lower the insertion-sort switch-over with the guarded hook TLX_VERIF_INSSORT_THRESHOLD so that quicksort / radix steps run on 3-5 strings; production thresholds (32) are used by the ALGO 0 queries',
                'strings are NUL-free up to their terminator (the property\'s precondition)']
 OUTSIDE = ['the 16-bit radix steps (entered for >= 65536 strings only)', 'more than 5 strings, strings longer than 3 bytes', 'UPtrStdStringSet and StringSuffixSet representations (not yet covered)']
